@@ -23,14 +23,18 @@ type C03Case struct {
 	Kind  string `json:"kind"` // valid | mutant:<kind> | random
 	Why   string `json:"why,omitempty"`
 	Tag   string `json:"tag,omitempty"` // required-undeclared: invalid only because a required name is not declared under properties
+	// parameter part: the instance travels as a parameter instead of a body
+	Target string            `json:"target,omitempty"` // request-target (path and query)
+	Header map[string]string `json:"header,omitempty"`
 }
 
 type C03Family struct {
-	Path   string    `json:"path"`
-	Schema string    `json:"schema"` // compact JSON of the root schema (for witnesses)
-	Comps  string    `json:"components,omitempty"`
-	Cases  []C03Case `json:"cases"`
-	Tags   []string  `json:"tags,omitempty"` // recursive-sum
+	SigPrefix string    `json:"sig_prefix,omitempty"` // replaces "schema/" in violation signatures (parameter part: "param/<location>/")
+	Path      string    `json:"path"`
+	Schema    string    `json:"schema"` // compact JSON of the root schema (for witnesses)
+	Comps     string    `json:"components,omitempty"`
+	Cases     []C03Case `json:"cases"`
+	Tags      []string  `json:"tags,omitempty"` // recursive-sum
 	// conformance part (C04): all components incl. the root, the same with undeclared required names dropped, root name
 	Root       string `json:"root,omitempty"`
 	All        string `json:"all_components,omitempty"`
@@ -118,8 +122,16 @@ func runC03(r *ev.Run, data json.RawMessage) error {
 			disp.mu.Lock()
 			disp.invoked, disp.errs = nil, nil
 			disp.mu.Unlock()
-			req := httptest.NewRequest("POST", j.fam.Path, strings.NewReader(c.Body))
-			req.Header.Set("Content-Type", "application/json")
+			var req *http.Request
+			if c.Target != "" {
+				req = httptest.NewRequest("GET", c.Target, nil)
+				for k, v := range c.Header {
+					req.Header.Set(k, v)
+				}
+			} else {
+				req = httptest.NewRequest("POST", j.fam.Path, strings.NewReader(c.Body))
+				req.Header.Set("Content-Type", "application/json")
+			}
 			w := httptest.NewRecorder()
 			pan, txt := ev.Guard(func() { srv.ServeHTTP(w, req) })
 			disp.mu.Lock()
@@ -129,29 +141,39 @@ func runC03(r *ev.Run, data json.RawMessage) error {
 			r.Eval(1)
 			r.Distinct(j.spec.Key + j.fam.Path + "|" + c.Body)
 			r.Count("cases_"+kindClass(c.Kind), 1)
+			if c.Target != "" {
+				r.Count("cases_sent_as_parameter", 1)
+			}
 			if c.Valid {
 				r.Count("reference_valid", 1)
 			} else {
 				r.Count("reference_invalid", 1)
 			}
-			wit := map[string]any{"schema": clipS(j.fam.Schema, 20000), "components": clipS(j.fam.Comps, 20000), "instance": clipS(c.Body, 600), "instance_kind": c.Kind, "reference_valid": c.Valid, "reference_reason": c.Why, "status": w.Code, "handler_invoked": invoked, "server_error": clipS(serr, 400)}
+			wit := map[string]any{"schema": clipS(j.fam.Schema, 20000), "components": clipS(j.fam.Comps, 20000), "instance": clipS(c.Body, 600), "instance_kind": c.Kind, "sent_as": map[string]any{"target": c.Target, "header": c.Header}, "reference_valid": c.Valid, "reference_reason": c.Why, "status": w.Code, "handler_invoked": invoked, "server_error": clipS(serr, 400)}
+			viol := func(sig, msg string, w map[string]any) {
+				if j.fam.SigPrefix != "" {
+					sig = j.fam.SigPrefix + strings.TrimPrefix(sig, "schema/")
+					msg = "[" + j.fam.SigPrefix + " parameter] " + msg
+				}
+				r.Violate(sig, msg, w)
+			}
 			switch {
 			case pan:
-				r.Violate("schema/server-panic", fmt.Sprintf("ServeHTTP panicked on instance %s: %s", clipS(c.Body, 200), txt), wit)
+				viol("schema/server-panic", fmt.Sprintf("ServeHTTP panicked on instance %s: %s", clipS(c.Body, 200), txt), wit)
 			case c.Valid && (!invoked || w.Code < 200 || w.Code > 299) && strings.Contains(serr, "unable to detect sum type variant") && hasTag(j.fam.Tags, "recursive-sum"):
-				r.Violate("schema/recursive-sum-unique-fields-incomplete", fmt.Sprintf("valid instance of a recursive oneOf refused (status %d, unable to detect sum type variant): %s ; schema %s ; components %s", w.Code, clipS(c.Body, 200), clipS(j.fam.Schema, 200), clipS(j.fam.Comps, 400)), wit)
+				viol("schema/recursive-sum-unique-fields-incomplete", fmt.Sprintf("valid instance of a recursive oneOf refused (status %d, unable to detect sum type variant): %s ; schema %s ; components %s", w.Code, clipS(c.Body, 200), clipS(j.fam.Schema, 200), clipS(j.fam.Comps, 400)), wit)
 			case c.Valid && (!invoked || w.Code < 200 || w.Code > 299) && c.Tag == "null-for-propertyless-object":
-				r.Violate("schema/nullable-propertyless-object-refuses-null", fmt.Sprintf("null refused for a nullable object schema without properties (status %d): %s ; schema %s ; server: %s", w.Code, clipS(c.Body, 200), clipS(j.fam.Schema, 300), clipS(serr, 200)), wit)
+				viol("schema/nullable-propertyless-object-refuses-null", fmt.Sprintf("null refused for a nullable object schema without properties (status %d): %s ; schema %s ; server: %s", w.Code, clipS(c.Body, 200), clipS(j.fam.Schema, 300), clipS(serr, 200)), wit)
 			case c.Valid && (!invoked || w.Code < 200 || w.Code > 299) && c.Tag == "null-for-object-in-recursive-family" && strings.Contains(serr, "\"{\" expected"):
-				r.Violate("schema/nullable-object-near-recursion-refuses-null", fmt.Sprintf("null refused for a nullable object in a schema family with a recursive component (status %d): %s ; server: %s", w.Code, clipS(c.Body, 200), clipS(serr, 200)), wit)
+				viol("schema/nullable-object-near-recursion-refuses-null", fmt.Sprintf("null refused for a nullable object in a schema family with a recursive component (status %d): %s ; server: %s", w.Code, clipS(c.Body, 200), clipS(serr, 200)), wit)
 			case c.Valid && (!invoked || w.Code < 200 || w.Code > 299):
-				r.Violate("schema/valid-refused:"+refuseClass(serr), fmt.Sprintf("valid instance refused (status %d): %s ; schema %s ; server: %s", w.Code, clipS(c.Body, 200), clipS(j.fam.Schema, 300), clipS(serr, 200)), wit)
+				viol("schema/valid-refused:"+refuseClass(serr), fmt.Sprintf("valid instance refused (status %d): %s ; schema %s ; server: %s", w.Code, clipS(c.Body, 200), clipS(j.fam.Schema, 300), clipS(serr, 200)), wit)
 			case !c.Valid && invoked && c.Tag == "required-undeclared":
-				r.Violate("schema/required-undeclared-property-not-enforced", fmt.Sprintf("instance lacking a required member that is not declared under properties reached the handler (reference: %s): %s ; schema %s", c.Why, clipS(c.Body, 200), clipS(j.fam.Schema, 300)), wit)
+				viol("schema/required-undeclared-property-not-enforced", fmt.Sprintf("instance lacking a required member that is not declared under properties reached the handler (reference: %s): %s ; schema %s", c.Why, clipS(c.Body, 200), clipS(j.fam.Schema, 300)), wit)
 			case !c.Valid && invoked:
-				r.Violate("schema/invalid-accepted:"+mutClass(c.Kind, c.Why), fmt.Sprintf("invalid instance reached the handler (%s; reference: %s): %s ; schema %s", c.Kind, c.Why, clipS(c.Body, 200), clipS(j.fam.Schema, 300)), wit)
+				viol("schema/invalid-accepted:"+mutClass(c.Kind, c.Why), fmt.Sprintf("invalid instance reached the handler (%s; reference: %s): %s ; schema %s", c.Kind, c.Why, clipS(c.Body, 200), clipS(j.fam.Schema, 300)), wit)
 			case !c.Valid && w.Code != 400:
-				r.Violate("schema/invalid-not-400", fmt.Sprintf("invalid instance answered with status %d", w.Code), wit)
+				viol("schema/invalid-not-400", fmt.Sprintf("invalid instance answered with status %d", w.Code), wit)
 			}
 			if i%40 == 0 && ci < 2 {
 				r.Sample(wit)
